@@ -300,6 +300,61 @@ def prog_options(env, case):
     return "accepted"
 
 
+INVALID_RETURN = ['', ' ', 'd', 'du', 'al', 'dua', 'prim', 'rimal', 'dualprimal', 'primaldual', 'dual ', ' dual', 'Dual', 'DUAL',
+                  'Primal', 'dual\n', 'both', 'none', 'primal,dual', 'dual|primal', 'p', 'l']
+INVALID_DIMRED = ['t', 'tr', 'trac', 'race', 'trace ', ' trace', 'Trace', 'TRACE', 'tracelogdet', 'logdet', 'logdetx', 'logdet1.5',
+                  'logdet 1x', 'log', 'det1', 'LOGDET1', 'Logdet1', 'logdet--1', 'logdet1e', 'nuclear', 'rank', ' ']
+
+
+def prog_options_concrete(env, case):
+    """finite list of concrete invalid option strings (prefixes, suffixes, concatenations, case and whitespace variants of
+    the documented values): complements the symbolic-string run, which cannot see operations a *concrete* str applies to
+    the option (e.g. `option in "literal"` is decided by C code on the argument's buffer)"""
+    from PEPit import PEP
+    if env.sym:
+        CvxStub(env).install()
+        MosekStub(env).install()
+    which = case['option']
+    values = INVALID_RETURN if which == 'return_primal_or_dual' else INVALID_DIMRED
+    n_ok = 0
+    cenv = _ConcreteParams(env)
+    for v in values:
+        pep = PEP()
+        objs, model = make_objects(cenv, pep)      # concrete class parameters: the option string is the subject here
+        complete(pep, model)
+        try:
+            if which == 'return_primal_or_dual':
+                r = pep.solve(verbose=0, return_primal_or_dual=v)
+            else:
+                r = pep.solve(verbose=0, dimension_reduction_heuristic=v)
+        except Exception as ex:
+            if isinstance(ex, E.Abort) or type(ex).__name__ == 'ReplayMismatch':
+                raise
+            n_ok += 1
+            env.claims += 1
+            if env.sym:
+                env.proved += 1
+            continue
+        env.check(False, "solve accepted the undocumented value %r for %s and returned %r" % (v, which, r),
+                  signature="C16:option-accepted-concrete:" + which)
+    return "%d/%d rejected" % (n_ok, len(values))
+
+
+class _ConcreteParams:
+    def __init__(self, env):
+        self._env = env
+        self.sym = env.sym
+
+    def real(self, name, **kw):
+        return dict(mu=0.1, L=1.0, gamma0=0.5).get(name, 1.0)
+
+    def assume(self, *a, **kw):
+        pass
+
+    def __getattr__(self, n):
+        return getattr(self._env, n)
+
+
 def prog_wrapper_name(env, case):
     """the `wrapper` option (concrete values): unknown names fall back to cvxpy (documented); an installed package that is
     not a wrapper must be rejected"""
@@ -323,7 +378,8 @@ def prog_wrapper_name(env, case):
 
 
 def prog(env, case):
-    return {'access': prog_access, 'status': prog_status, 'options': prog_options, 'wrapper': prog_wrapper_name}[
+    return {'access': prog_access, 'status': prog_status, 'options': prog_options, 'wrapper': prog_wrapper_name,
+            'options-concrete': prog_options_concrete}[
         case['kind']](env, case)
 
 
@@ -346,6 +402,8 @@ def cases(tier):
                                **common))
     cs.append(dict(id="opt-return", kind='options', option='return_primal_or_dual', **common))
     cs.append(dict(id="opt-dimred", kind='options', option='dimension_reduction_heuristic', **common))
+    cs.append(dict(id="opt-return-concrete", kind='options-concrete', option='return_primal_or_dual', **common))
+    cs.append(dict(id="opt-dimred-concrete", kind='options-concrete', option='dimension_reduction_heuristic', **common))
     cs.append(dict(id="wrapper-unknown", kind='wrapper', name='zz_not_a_package', fallback_documented=True, **common))
     cs.append(dict(id="wrapper-numpy", kind='wrapper', name='numpy', fallback_documented=False, **common))
     cs.append(dict(id="wrapper-CVXPY", kind='wrapper', name='CVXPY', fallback_documented=True, **common))
